@@ -358,6 +358,12 @@ fn payloads_fixed(x: &W16, c: C, a: &Addr) -> Vec<Payload> {
             p("NextLoan", 0, json!({"next_loan": {"initiator": me, "source_vault": w.vault.to_string(), "source_vault_asset_info": nat("uwhale"), "payload": [], "to_loan": [], "loaned_assets": []}}), vec![]),
             // the caller names ITSELF as the source vault of an asset that does have a registered vault
             p("NextLoan", 3, json!({"next_loan": {"initiator": me, "source_vault": me, "source_vault_asset_info": nat("uwhale"), "payload": [], "to_loan": [], "loaned_assets": []}}), vec![]),
+            // round 8: the caller names itself as the source vault AND lists itself among the loaned assets (that list is caller-supplied:
+            // it proves nothing about who is a vault); and the real vault listed there while somebody else sends the message
+            p("NextLoan", 4, json!({"next_loan": {"initiator": me, "source_vault": me, "source_vault_asset_info": nat("uwhale"), "payload": [], "to_loan": [],
+                "loaned_assets": [[me, asset(nat("uwhale"), 1000)]]}}), vec![]),
+            p("NextLoan", 5, json!({"next_loan": {"initiator": me, "source_vault": w.vault.to_string(), "source_vault_asset_info": nat("uwhale"), "payload": [], "to_loan": [],
+                "loaned_assets": [[w.vault.to_string(), asset(nat("uwhale"), 1000)]]}}), vec![]),
             p("CompleteLoan", 0, json!({"complete_loan": {"initiator": me, "loaned_assets": []}}), vec![]),
         ],
         C::Collector => vec![
@@ -764,13 +770,20 @@ mod chameleon {
 }
 
 fn probe_lookalike_callers(out: &mut Out) {
-    let cases: [(C, &str, &str); 5] = [(C::Collector, "ForwardFees", "config"), (C::VaultRouter, "NextLoan", "config"),
-                                       (C::Pair, "Receive", "token_info"), (C::Trio, "Receive", "token_info"), (C::Vault, "Receive", "token_info")];
+    // round 8: the last case answers like a vault where the router would ask a vault something (its payback quote), and the router holds
+    // funds of its own, so that nothing but the sender check stands between the impostor's NextLoan and a completed "loan"
+    let cases: [(C, &str, &str); 6] = [(C::Collector, "ForwardFees", "config"), (C::VaultRouter, "NextLoan", "config"),
+                                       (C::Pair, "Receive", "token_info"), (C::Trio, "Receive", "token_info"), (C::Vault, "Receive", "token_info"),
+                                       (C::VaultRouter, "NextLoan", "{\"get_payback_amount\":{\"amount\":\"1000\"}}")];
     for (c, variant, q) in cases {
         let mut x = world16(0);
         let des = x.designated(c, variant);
         // what the designated contract answers to the query an impostor check would most plausibly make
-        let qmsg = Binary::from(format!("{{\"{}\":{{}}}}", q).into_bytes());
+        let qmsg = if q.starts_with('{') { Binary::from(q.as_bytes().to_vec()) } else { Binary::from(format!("{{\"{}\":{{}}}}", q).into_bytes()) };
+        if q.starts_with('{') {
+            let to = x.addr(c).to_string();
+            let _ = x.w.app.sudo(cw_multi_test::SudoMsg::Bank(cw_multi_test::BankSudo::Mint { to_address: to, amount: vec![coin(50_000, "uwhale")] }));
+        }
         let answer: Result<Binary, _> = x.w.app.wrap().query(&cosmwasm_std::QueryRequest::Wasm(cosmwasm_std::WasmQuery::Smart { contract_addr: des.to_string(), msg: qmsg }))
             .map(|v: Value| Binary::from(serde_json::to_vec(&v).unwrap()));
         let Ok(answer) = answer else { out.count(&format!("lookalike:{}:{}:no_answer_to_copy", c.coq(), variant)); continue };
